@@ -251,3 +251,134 @@ func nop() {}
 //go:noinline
 func d(k int) { cnt += k }
 `
+
+// NestBody builds `depth` nested if/else statements; every level may carry defers before the
+// branch, in either arm and after the join (so inner join blocks survive), the innermost arms
+// hold defers. Exercises fixpoints that need many sweeps in dominator preorder.
+func NestBody(r *rand.Rand, depth int) []Stmt {
+	leaf := func() []Stmt {
+		switch r.Intn(4) {
+		case 0:
+			return nil
+		case 1:
+			return []Stmt{{Kind: SNop}}
+		case 2:
+			return []Stmt{{Kind: SDefer}}
+		default:
+			return []Stmt{{Kind: SDefer}, {Kind: SNop}}
+		}
+	}
+	if depth == 0 {
+		return leaf()
+	}
+	var body []Stmt
+	body = append(body, leaf()...)
+	a, b := NestBody(r, depth-1), leaf()
+	if r.Intn(2) == 0 {
+		a, b = b, a
+	}
+	if r.Intn(5) == 0 {
+		b = NestBody(r, depth-1)
+	}
+	body = append(body, Stmt{Kind: SIfElse, A: a, B: b})
+	body = append(body, leaf()...)
+	return body
+}
+
+// SeqBody: k defers in a row, then a branch (if/else or switch) whose arms hold different defers,
+// optionally inside/after loops without defers. Exercises stack sharing and ordering.
+func SeqBody(r *rand.Rand, k int) []Stmt {
+	var body []Stmt
+	for i := 0; i < k; i++ {
+		body = append(body, Stmt{Kind: []int{SDefer, SDefer, SDeferClosure}[r.Intn(3)]})
+		if r.Intn(6) == 0 {
+			body = append(body, Stmt{Kind: SFor, A: []Stmt{{Kind: SNop}}})
+		}
+	}
+	arm := func() []Stmt {
+		n := r.Intn(3)
+		var a []Stmt
+		for i := 0; i < n; i++ {
+			a = append(a, Stmt{Kind: SDefer})
+		}
+		return a
+	}
+	kind := []int{SIfElse, SSwitch, SIf}[r.Intn(3)]
+	body = append(body, Stmt{Kind: kind, A: arm(), B: arm()})
+	if r.Intn(2) == 0 {
+		body = append(body, Stmt{Kind: SDefer})
+	}
+	return body
+}
+
+// LoopBody: loops whose body is a single basic block or a few, with a defer inside, entered
+// through different shapes (do-while style `for { …; if c { break } }`, goto back-edge, range).
+func LoopBody(r *rand.Rand) []Stmt {
+	inner := []Stmt{{Kind: SDefer}}
+	if r.Intn(2) == 0 {
+		inner = append(inner, Stmt{Kind: SNop})
+	}
+	if r.Intn(3) == 0 {
+		inner = append([]Stmt{{Kind: SNop}}, inner...)
+	}
+	var body []Stmt
+	if r.Intn(2) == 0 {
+		body = append(body, Stmt{Kind: SDefer})
+	}
+	switch r.Intn(4) {
+	case 0:
+		body = append(body, Stmt{Kind: SForInf, A: append(inner, Stmt{Kind: SBreak})})
+	case 1:
+		body = append(body, Stmt{Kind: SFor, A: inner})
+	case 2:
+		body = append(body, Stmt{Kind: SRange, A: inner})
+	default:
+		body = append(body, inner...)
+		body = append(body, Stmt{Kind: SGotoTop})
+	}
+	if r.Intn(2) == 0 {
+		body = append(body, Stmt{Kind: SDefer})
+	}
+	return body
+}
+
+// SparseNestBody: a deep if/else nest (every level followed by a statement so that inner join
+// blocks survive) with only `nd` defers, placed at random leaves. Few defers + deep nesting is
+// the shape on which "iteration count proportional to the number of defers" shortcuts fail.
+func SparseNestBody(r *rand.Rand, depth, nd int) []Stmt {
+	var leaves []*Stmt
+	var build func(d int) []Stmt
+	build = func(d int) []Stmt {
+		if d == 0 {
+			b := []Stmt{{Kind: SNop}}
+			return b
+		}
+		deep, shallow := build(d-1), []Stmt{{Kind: SNop}}
+		if r.Intn(4) == 0 {
+			shallow = build(d - 1)
+		}
+		st := Stmt{Kind: SIfElse}
+		if r.Intn(2) == 0 {
+			st.A, st.B = shallow, deep
+		} else {
+			st.A, st.B = deep, shallow
+		}
+		return []Stmt{st, {Kind: SNop}}
+	}
+	body := build(depth)
+	var collect func(b []Stmt)
+	collect = func(b []Stmt) {
+		for i := range b {
+			if b[i].Kind == SNop {
+				leaves = append(leaves, &b[i])
+			}
+			collect(b[i].A)
+			collect(b[i].B)
+		}
+	}
+	collect(body)
+	for i := 0; i < nd && len(leaves) > 0; i++ {
+		leaves[r.Intn(len(leaves))].Kind = SDefer
+	}
+	return body
+}
